@@ -1,6 +1,7 @@
 import NA.Core.IOUtil
 import NA.Model.NsxWire
 import NA.Model.NsxAccept
+import NA.Model.NsxSvc
 /-!
 Driver for C04 (and the NSX share of C07/C08/C10).  One case per line, TAB separated:
 
@@ -11,6 +12,8 @@ Driver for C04 (and the NSX share of C07/C08/C10).  One case per line, TAB separ
                            (P = 1: also the store after every prefix)
   class S T                the decidable side conditions (hypotheses of the theorems / finding signatures)
   load  N S                what LoadDevice keeps of S when listings come in pages of N (`loadPaged`)
+  svc   ENTRIES            byte form of a service_entries list as MarshalJSON writes it (`render`); entries GS separated,
+                           fields US separated: id kind l4 src dst icmp type code num; optional: `-` absent, `=…` present
   myers ALEN BLEN BITS     the Myers port on a 0/1 matrix (row major) → ranges, validity, identity-on-equal
 -/
 namespace NA.Drv.C04
@@ -49,6 +52,26 @@ def twinGroups (T : Config) : List String :=
   T.groups.filterMap fun g1 =>
     if T.groups.any fun g2 => g1.id != g2.id &&
         g1.addrs.all (g2.addrs.contains ·) && g2.addrs.all (g1.addrs.contains ·) then some g1.id else none
+
+def decOptStrs (s : String) : Option (Option (List String)) :=
+  if s == "-" then some none
+  else if s.startsWith "=" then some (some (commaL (s.drop 1).toString))
+  else none
+
+def decOptInt (s : String) : Option (Option Int) :=
+  if s == "-" then some none
+  else if s.startsWith "=" then (s.drop 1).toString.toInt?.map some
+  else none
+
+def decSvcEntry (s : String) : Option SvcEntry :=
+  match s.splitOn US with
+  | [id, kind, l4, src, dst, icmp, ty, code, num] =>
+    match (match kind with | "l4" => some SvcKind.l4 | "icmp" => some .icmp | "ipproto" => some .ipproto | _ => none),
+      decOptStrs src, decOptStrs dst, decOptInt ty, decOptInt code, num.toInt? with
+    | some k, some src, some dst, some ty, some code, some n =>
+      some { id := id, kind := k, l4Proto := l4, src := src, dst := dst, icmpProto := icmp, icmpType := ty, icmpCode := code, protoNum := n }
+    | _, _, _, _, _, _ => none
+  | _ => none
 
 def answer (line : String) : String :=
   match splitTab line with
@@ -101,6 +124,10 @@ def answer (line : String) : String :=
       "\t".intercalate [",".intercalate (L.policies.map fun p => p.id ++ ":" ++ ";".intercalate (p.rules.map (·.id))),
         ",".intercalate (L.groups.map (·.id)), ",".intercalate (L.services.map (·.id))]
     | _, _ => "bad-input"
+  | ["svc", es] =>
+    match (splitL GS es).mapM decSvcEntry with
+    | some l => (if l.all (fun e => decide e.WF) then "WF" else "NOTWF") ++ "\t" ++ render l
+    | none => "bad-input"
   | ["myers", a, b, bits] =>
     match a.toNat?, b.toNat? with
     | some aLen, some bLen =>
